@@ -311,7 +311,9 @@ class Run:
                 self.harness_errors.append("build %s: %s" % (c, e))
                 return
         pending = []
-        for n, j in enumerate(jobs):
+        seq0 = getattr(self, "_jobseq", 0)          # numbering continues over several run_jobs calls of one run (file names)
+        self._jobseq = seq0 + len(jobs)
+        for n, j in enumerate(jobs, seq0):
             j = dict(j)
             j.setdefault("params", {})
             j["seed"], j["tier"], j["n"] = self.seed, self.tier, n
@@ -352,6 +354,8 @@ class Run:
             f.write(b"\0" * MARK_SIZE)
         open(outp, "w").close()
         jj = {k: v for k, v in job.items() if k not in ("restarts",)}
+        with open(base + ".job", "w") as f:
+            json.dump(jj, f, default=str)
         errf = open(errp, "w")
         env = worker_env(job["cfg"])
         for k, v in (job.get("env") or {}).items():
@@ -616,7 +620,8 @@ class Run:
         with open(evp + ".tmp", "w") as f:
             json.dump(ev, f, indent=1, default=_jd)
         os.rename(evp + ".tmp", evp)
-        shutil.rmtree(self.work, ignore_errors=True)
+        if not os.environ.get("VERIF_KEEP"):
+            shutil.rmtree(self.work, ignore_errors=True)
         print("%s tier=%s seed=%d: evaluations=%d distinct=%d violations=%d known=%d wall=%.1fs" %
               (self.prop, self.tier, self.seed, self.evaluations, distinct, len(new), len(known), wall))
         if new:
@@ -667,16 +672,20 @@ def replay(prop, path):
     else:
         job = dict(info["job"])
         idx = info["idx"]
-        job["resume_after"], job["stop_after"] = idx - 1, idx
+        if idx >= 0:                      # (memcheck findings of a whole job carry idx -1: the job is re-run as a whole)
+            job["resume_after"], job["stop_after"] = idx - 1, idx
     run = Run(prop, rec.get("tier", "quick"), rec.get("seed", 1))
     run.seed = job.get("seed", run.seed)
-    run.run_jobs([job])
+    run.run_jobs([job], timeout=3000)
     keys = sorted(run.viol)
     for k in keys:
         print("REPLAY key=%s" % k)
         if k == rec["key"]:
             print("VIOLATION property=%s replay=%s" % (prop, path))
-    shutil.rmtree(run.work, ignore_errors=True)
+    if os.environ.get("VERIF_KEEP"):
+        print("work directory kept: %s" % run.work)
+    else:
+        shutil.rmtree(run.work, ignore_errors=True)
     return 1 if rec["key"] in keys else 0
 
 
